@@ -191,6 +191,9 @@ def run(v):
     # choices (GroupLine engine): GSwapCommutes on the specification, all lines replayed
     gfam = (D.alt_family(SEED + 33, 14, maxlen=4, budget=3000) + D.group_family(SEED, 3, 2000)[:10]) if v.tier == "quick" \
         else (D.alt_family(SEED + 33, 80, maxlen=5, budget=40000) + D.group_family(SEED, 5, 40000))
+    # a choice between named branches and a positional one: the word is the choice's wherever the other options stand
+    gfam += D.alt_pos_family(SEED + 35, 8 if v.tier == "quick" else 40, maxlen=3 if v.tier == "quick" else 4,
+                             budget=2500 if v.tier == "quick" else 20000)
     gcov = run_cmdline_property(v, gfam, "MC_GroupLine_swap.cfg", replay_cfg="MC_GroupLine_replay.cfg", module="MC_GroupLine",
                                 signature=cmdline_sig.signature, trace_module="GroupLineTrace", name="C03g")
     cov = merge_cov(cov, gcov, "groupline")
